@@ -138,6 +138,27 @@ func checkSites(id, cat, replay string) {
 			seen[m.Key] = true
 			r.Violate(m.Key, fmt.Sprintf("program %d cfg=%+v: %s", i, cfg, m.Detail), replayFiles(pr, map[string]string{"argv.txt": strings.Join(append(cfgArgs(cfg), "./..."), " ")}))
 		}
+		// the vet driver (one process per package, facts on disk) must give the same verdicts: every 10th program without test files
+		if (r.Thorough() || i < 4) && i%2 == 1 && !bt.Spec.Tests {
+			root := ggrun.Scratch()
+			ggrun.WriteTree(root, pr.files)
+			exp2 := gen.Evaluate(bt.P, cfg, root)
+			vres, verr := runVet(root, ggrun.Bin, cfgArgs(cfg), "./...")
+			if verr != nil || len(vres.Errors) > 0 {
+				r.Violate("vet-driver/failed", fmt.Sprintf("program %d: go vet -vettool failed: %v %v\n%s", i, verr, vres.Errors, head(vres.Stdout, 1500)), replayFiles(pr, nil))
+			} else {
+				mm2, _, _ := gen.Compare(bt.P, exp2, ggrun.ToObs(vres.Diags))
+				seen2 := map[string]bool{}
+				for _, m := range mm2 {
+					if strings.HasPrefix(m.Key, cat+"/") && !seen2[m.Key] {
+						seen2[m.Key] = true
+						r.Violate("vet-driver/"+m.Key, fmt.Sprintf("program %d via go vet -vettool cfg=%+v: %s", i, cfg, m.Detail), replayFiles(pr, nil))
+					}
+				}
+				r.Count("programs_also_judged_through_the_vet_driver", 1)
+			}
+			os.RemoveAll(root)
+		}
 		if i < 3 {
 			for _, m := range pr.exp.ByLine {
 				_ = m
